@@ -1899,12 +1899,12 @@ Example ex2_reopened_domain : exists t, parse (render ex2_doc) = Ok t /\
   get_domain_line t (path_string [raw "a"%hex] None) = Ok [raw "k=1"%hex; raw "k = 2"%hex; raw "k=3"%hex].
 Proof.
   destruct (grammar_value ex2_dec ex2_doc [raw "a"%hex] (raw "k"%hex) ex2_doc_ok ex2_short ex2_no_clobber ex2_grammar_text) as (t & Hp & _ & H2 & _).
-  - repeat constructor; try discriminate; notin.
+  - apply Forall_cons; [|apply Forall_nil]. split; [discriminate|split; notin].
   - repeat split; try notin; [exists 107, []|exists [], 107]; split; try reflexivity; discriminate.
   - vm_compute. discriminate.
   - exists t. split; [exact Hp|]. split; [rewrite H2; vm_compute; reflexivity|].
     destruct (grammar_lines ex2_dec ex2_doc [raw "a"%hex] ex2_doc_ok ex2_short ex2_no_clobber ex2_grammar_text) as (t' & Hp' & HL).
-    + repeat constructor; try discriminate; notin.
+    + apply Forall_cons; [|apply Forall_nil]. split; [discriminate|split; notin].
     + right. vm_compute. left. reflexivity.
     + rewrite Hp in Hp'. injection Hp' as <-. rewrite HL. vm_compute. reflexivity.
 Qed.
